@@ -1,7 +1,7 @@
 SPECIFICATION Spec
 CONSTANTS
   Traces = {"a", "b"}
-  KeepTraces = {"a"}
+  KeepTraces = {}
   DropTraces = {"a"}
   Rates = {1}
   Reasons = {"ra"}
